@@ -120,6 +120,19 @@ impl<'a> Src<'a> {
     pub fn u8(&mut self) -> u8 {
         self.below(256) as u8
     }
+    /// all remaining choices as one byte string: the next choice (mod 8) says how many bytes of the
+    /// last word to drop, the rest are little-endian words (inverse: `encode_tail_bytes`)
+    pub fn tail_bytes(&mut self) -> Vec<u8> {
+        let drop = (self.raw() % 8) as usize;
+        let mut out = Vec::new();
+        while self.pos < self.data.len() {
+            out.extend_from_slice(&self.raw().to_le_bytes());
+        }
+        let keep = out.len().saturating_sub(drop);
+        out.truncate(keep);
+        self.trace_hash.write(&out);
+        out
+    }
     /// a u64 biased towards interesting magnitudes: small, powers of two ±δ, max
     pub fn u64_biased(&mut self) -> u64 {
         match self.below(8) {
@@ -381,6 +394,9 @@ pub struct Sub {
     pub crash_is_violation: bool,
     /// run cases on this many threads (0 = all)
     pub threads: usize,
+    /// byte-level sub-check: the first `raw_prefix` choices are selectors, everything after them is
+    /// one byte string (`Src::tail_bytes`); tells the libFuzzer bridge how to map its input
+    pub raw_prefix: Option<usize>,
 }
 
 impl Sub {
@@ -395,6 +411,7 @@ impl Sub {
             hang_is_violation: false,
             crash_is_violation: true,
             threads: 0,
+            raw_prefix: None,
         }
     }
     pub fn exhaustive(name: &'static str, f: ExhaustiveFn) -> Sub {
@@ -408,6 +425,7 @@ impl Sub {
             hang_is_violation: false,
             crash_is_violation: true,
             threads: 1,
+            raw_prefix: None,
         }
     }
     pub fn isolated(mut self, timeout_ms: u64, hang_is_violation: bool) -> Sub {
@@ -424,6 +442,10 @@ impl Sub {
     }
     pub fn threads(mut self, n: usize) -> Sub {
         self.threads = n;
+        self
+    }
+    pub fn raw(mut self, prefix: usize) -> Sub {
+        self.raw_prefix = Some(prefix);
         self
     }
 }
@@ -640,6 +662,11 @@ pub struct Opts {
     pub threads: usize,
     pub only_sub: Option<String>,
     pub scale: f64,
+    /// print the generated sub-checks of every property served by this binary (JSON) and exit
+    pub list: bool,
+    /// write `count` generated cases of --prop/--sub as libFuzzer corpus files into this directory
+    pub emit_corpus: Option<String>,
+    pub count: usize,
 }
 
 pub fn parse_args() -> Opts {
@@ -659,6 +686,9 @@ pub fn parse_args() -> Opts {
         }),
         only_sub: None,
         scale: std::env::var("VERIF_SCALE").ok().and_then(|s| s.parse().ok()).unwrap_or(1.0),
+        list: false,
+        emit_corpus: None,
+        count: 64,
     };
     let mut i = 1;
     while i < args.len() {
@@ -685,6 +715,15 @@ pub fn parse_args() -> Opts {
             },
             "--sub" => {
                 o.only_sub = Some(args[i + 1].clone());
+                i += 1;
+            },
+            "--list" => o.list = true,
+            "--emit-corpus" => {
+                o.emit_corpus = Some(args[i + 1].clone());
+                i += 1;
+            },
+            "--count" => {
+                o.count = args[i + 1].parse().unwrap_or(64);
                 i += 1;
             },
             other => {
@@ -795,6 +834,9 @@ fn run_shard(
                 rec.class("worker_died");
                 Ok(())
             },
+            // while shrinking a non-hang failure, a (short-budget) timeout is merely a slow case,
+            // not a smaller reproduction of the original failure
+            Err(fail) if failed_already && fail.key == "hang" && st.2.as_ref().map(|f| f.key != "hang").unwrap_or(false) => Ok(()),
             Err(fail) => match known.lookup(prop, &fail.key) {
                 Some(what) => {
                     rec.known_hits.push((fail.key.clone(), what));
@@ -883,6 +925,18 @@ pub fn main_with(props: Vec<Prop>) -> ! {
     let opts = parse_args();
     // generators may scale sizes with the tier; workers inherit the variable
     std::env::set_var("VERIF_TIER", opts.tier.name());
+    if opts.list {
+        let mut out = vec![];
+        for p in &props {
+            for s in &p.subs {
+                if let Kind::Gen(_, n) = &s.kind {
+                    out.push(json!({"property": p.id, "sub": s.name, "choices": n, "raw_prefix": s.raw_prefix, "isolated": s.isolated, "timeout_ms": s.timeout_ms}));
+                }
+            }
+        }
+        println!("{}", serde_json::to_string(&out).unwrap());
+        std::process::exit(0);
+    }
     let Some(prop) = props.into_iter().find(|p| p.id == opts.prop) else {
         eprintln!("property {} is not served by this binary", opts.prop);
         std::process::exit(2);
@@ -895,6 +949,16 @@ pub fn main_with(props: Vec<Prop>) -> ! {
         worker::worker_main(prop, sub);
     }
     let start = Instant::now();
+
+    if let Some(dir) = &opts.emit_corpus {
+        let sub = prop.subs.iter().find(|s| Some(s.name) == opts.only_sub.as_deref()).expect("--emit-corpus needs --sub");
+        let Kind::Gen(_, n) = &sub.kind else { std::process::exit(2) };
+        let _ = std::fs::create_dir_all(dir);
+        for (i, ch) in gen_choice_vectors(opts.seed, prop.id, sub.name, opts.count, *n).iter().enumerate() {
+            std::fs::write(format!("{dir}/gen-{i:04}"), choices_to_fuzz(sub.raw_prefix, ch)).expect("write corpus file");
+        }
+        std::process::exit(0);
+    }
 
     if let Some(path) = &opts.replay {
         std::process::exit(replay(prop, path, &known));
@@ -1047,6 +1111,12 @@ pub fn main_with(props: Vec<Prop>) -> ! {
         "sub_checks": prop.subs.iter().map(|s| s.name).collect::<Vec<_>>(),
         "violation_replays": violation_paths,
     });
+    if let Ok(p) = std::env::var("VERIF_FUZZ_SUMMARY") {
+        // coverage-guided stage of the thorough tier (tools/fuzz_stage.py), run just before this binary
+        if let Some(v) = std::fs::read_to_string(&p).ok().and_then(|s| serde_json::from_str::<Value>(&s).ok()) {
+            coverage["fuzz"] = v;
+        }
+    }
     if exhaustive || !total.exhaustive_spaces.is_empty() {
         coverage["exhaustive"] = json!(exhaustive);
         coverage["exhaustive_spaces"] = json!(total.exhaustive_spaces);
@@ -1155,4 +1225,97 @@ pub fn read_all(mut r: impl Read) -> Vec<u8> {
     let mut v = vec![];
     let _ = r.read_to_end(&mut v);
     v
+}
+
+
+// LIBFUZZER BRIDGE
+// ================================================================================================
+// A coverage-guided fuzzer can drive every generated sub-check: its input bytes are decoded into a
+// choice vector, the sub-check (oracle included) runs in-process, and a failure that is not a
+// recorded known finding makes the target abort so that libFuzzer saves the input. The saved
+// input converts back into an ordinary replay file (`fuzz_to_choices`), which is what decides.
+
+/// inverse of `Src::tail_bytes`
+pub fn encode_tail_bytes(bytes: &[u8]) -> Vec<u64> {
+    let drop = (8 - bytes.len() % 8) % 8;
+    let mut out = vec![drop as u64];
+    for ch in bytes.chunks(8) {
+        let mut w = [0u8; 8];
+        w[..ch.len()].copy_from_slice(ch);
+        out.push(u64::from_le_bytes(w));
+    }
+    out
+}
+
+/// Maps fuzzer bytes to a choice vector. Structured sub-checks: 8 bytes (big-endian, so that the
+/// first byte of a group decides `below(n)` for small n) per choice. Raw sub-checks: one byte per
+/// selector choice, then the byte string.
+pub fn fuzz_to_choices(raw_prefix: Option<usize>, data: &[u8]) -> Vec<u64> {
+    match raw_prefix {
+        None => data
+            .chunks(8)
+            .map(|ch| {
+                let mut w = [0u8; 8];
+                w[..ch.len()].copy_from_slice(ch);
+                u64::from_be_bytes(w)
+            })
+            .collect(),
+        Some(p) => {
+            let p = p.min(data.len());
+            let mut out: Vec<u64> = data[..p].iter().map(|b| (*b as u64) << 56 | 1 << 55).collect();
+            out.extend(encode_tail_bytes(&data[p..]));
+            out
+        },
+    }
+}
+
+/// inverse of `fuzz_to_choices` (used to seed a corpus from generated cases)
+pub fn choices_to_fuzz(raw_prefix: Option<usize>, choices: &[u64]) -> Vec<u8> {
+    match raw_prefix {
+        None => choices.iter().flat_map(|c| c.to_be_bytes()).collect(),
+        Some(p) => {
+            let p = p.min(choices.len());
+            let mut out: Vec<u8> = choices[..p].iter().map(|c| (c >> 56) as u8).collect();
+            let mut s = Src::new(&choices[p..]);
+            out.extend(s.tail_bytes());
+            out
+        },
+    }
+}
+
+pub struct FuzzTarget {
+    pub prop: &'static str,
+    pub sub: &'static str,
+    pub raw_prefix: Option<usize>,
+    f: CaseFn,
+    known: Known,
+}
+
+impl FuzzTarget {
+    /// `target` = "<Cxx>/<sub-check name>"; known findings are read from $VERIF_DIR.
+    pub fn find(props: Vec<Prop>, target: &str) -> FuzzTarget {
+        let (pid, sname) = target.split_once('/').expect("target must be <Cxx>/<sub>");
+        let prop = props.into_iter().find(|p| p.id == pid).unwrap_or_else(|| panic!("unknown property {pid}"));
+        let sub = prop.subs.iter().find(|s| s.name == sname).unwrap_or_else(|| panic!("unknown sub-check {sname}"));
+        let f = match &sub.kind {
+            Kind::Gen(f, _) => *f,
+            Kind::Exhaustive(_) => panic!("exhaustive sub-checks have no generated input"),
+        };
+        let dir = std::env::var("VERIF_DIR").unwrap_or_else(|_| "/verif".into());
+        let known = Known::load(&format!("{dir}/known_findings.json"));
+        let _ = GLOBAL_KNOWN.set((prop.id.to_string(), Known::load(&format!("{dir}/known_findings.json"))));
+        FuzzTarget { prop: prop.id, sub: sub.name, raw_prefix: sub.raw_prefix, f, known }
+    }
+    /// Runs one fuzzer input; `Some(fail)` = a violation that is not a recorded known finding.
+    pub fn run(&self, data: &[u8]) -> Option<Fail> {
+        let choices = fuzz_to_choices(self.raw_prefix, data);
+        let (_rec, _fp, res) = run_case_inproc(self.f, &choices, false, false);
+        match res {
+            Ok(()) => None,
+            Err(fail) => match self.known.lookup(self.prop, &fail.key) {
+                Some(_) => None,
+                None => Some(fail),
+            },
+        }
+    }
 }
